@@ -28,13 +28,25 @@ func scaledPt(p geom.Point) []interface{} {
 }
 
 func runC03(c map[string]interface{}) []Event {
+	// "off": the whole case is translated (far from the coordinate origin); centroids are reported relative to it
+	var off geom.Point
+	if v, ok := c["off"]; ok {
+		off = decPoint(v, intDec)
+	}
 	switch str(c["kind"]) {
 	case "shape":
 		sp := arr(c["spelled"])
 		mp := make(geom.MultiPolygon, len(sp))
 		for i, p := range sp {
 			mp[i] = decPolygon(p, intDec)
+			for _, r := range mp[i] {
+				for k := range r {
+					r[k].X += off.X
+					r[k].Y += off.Y
+				}
+			}
 		}
+		scaledPt := func(p geom.Point) []interface{} { return scaledPt(geom.Point{X: p.X - off.X, Y: p.Y - off.Y}) }
 		e := Event{"ev": "measure", "area2": 0, "area2exact": false, "cen": []interface{}{codeBad, codeBad},
 			"pcen": []interface{}{codeBad, codeBad}, "opcen": []interface{}{codeBad, codeBad}, "oparea2": -1}
 		e["out"] = safely(func() {
@@ -67,6 +79,12 @@ func runC03(c map[string]interface{}) []Event {
 	case "line":
 		l := geom.LineString(decPath(c["path"], intDec))
 		q := decPoint(c["q"], intDec)
+		for k := range l {
+			l[k].X += off.X
+			l[k].Y += off.Y
+		}
+		q.X += off.X
+		q.Y += off.Y
 		e := Event{"ev": "line", "len": -1, "lenexact": false, "oplen": -1, "mllen": -1, "d2K": -1, "mld2K": -2}
 		e["out"] = safely(func() {
 			ln := l.Length()
